@@ -22,6 +22,34 @@ def configs():
     return cf
 
 
+def attribute(ent, bad_cfg, job):
+    "Why is the argument refuted under bad_cfg although another run proves it? Unsaturated open branch => the C02 call-site key."
+    import re
+    import coqgen, c02
+    from vlib import coq_eval_cases
+    cfg, order = bad_cfg
+    j = {k: v for k, v in job.items() if k in ('logic', 'example', 'premises', 'conclusion')}
+    j.update(opts=cfg.get('opts'), models=True, id=0)
+    if cfg.get('prems') == 'rev' and 'premises' in j:
+        j['premises'] = j['premises'][::-1]
+    try:
+        r = probe_json('probe_gproofs.py', stdin=json.dumps(dict(jobs=[j])), order=order)['results'][0]
+        i = coqgen.ident(ent['logic'])
+        exprs = [f'unsaturated FLA_{i} {ob["nodes"]} {ob["ticked"]}' for ob in (r.get('open_branches') or []) if not ob['limit_flag']]
+        obs = [ob for ob in (r.get('open_branches') or []) if not ob['limit_flag']]
+        hdr = c02.HEADER + 'Require Import GC09.Rules GC09.Logics.\n'
+        keys = set()
+        for ob, ans in zip(obs, coq_eval_cases('C09', hdr, exprs, shard=50, name='Attr')):
+            for k, c in re.findall(r'\((\d+), (\d+)\)', ans):
+                k, c = int(k), int(c)
+                keys.add('conflict:' + c02.clause_key(ent['logic'], c, 'frame' if c in (4, 6) else ob['shapes'][k]))
+        if keys:
+            return sorted(keys)
+    except Exception as e:     # attribution is best effort; an unexplained conflict stays a plain violation
+        pass
+    return [f'conflict:{ent["logic"]}']
+
+
 def run(args) -> int:
     chk = Check('C09', args.tier, args.seed)
     ensure_theory()
@@ -76,10 +104,13 @@ def run(args) -> int:
         if len(verdicts) > 1:
             a = next(k for k, v in ent['classes'].items() if v == 'valid')
             b_ = next(k for k, v in ent['classes'].items() if v == 'invalid')
-            chk.violation(f'conflict:{ent["logic"]}',
-                          f"{ent['logic']}: {ent['argstr']} is valid under {a} but invalid (limit-free open branch) under {b_}",
-                          dict(kind='conflict', logic=ent['logic'], argstr=ent['argstr'], valid_under=json.loads(a),
-                               invalid_under=json.loads(b_)))
+            cause = attribute(ent, json.loads(b_), jobs[jid])
+            for key in cause:
+                chk.violation(key,
+                              f"{ent['logic']}: {ent['argstr']} is valid under {a} but invalid (limit-free open branch) under {b_}"
+                              + ('' if key.endswith(ent['logic']) else ' - the refuting branch is unsaturated'),
+                              dict(kind='conflict', logic=ent['logic'], argstr=ent['argstr'], valid_under=json.loads(a),
+                                   invalid_under=json.loads(b_)))
     chk.assumptions = props_assumptions('C09')
     chk.theorems = ['C09_no_conflict', 'C09_prop_same_verdict']
     chk.rule = ('per argument (examples + random modal/first-order) and logic: 4 option combinations x {build, step loop} + reversed / '
